@@ -104,7 +104,7 @@ def to_coq(c):
 # observation handling
 # ---------------------------------------------------------------------------------------
 
-IMPL_ONLY = (80, 81, 82, 1083)
+IMPL_ONLY = (80, 81, 82, 83, 1083)
 LEVEL_KINDS = (71, 1300, 72, 1301)
 
 
@@ -232,6 +232,11 @@ def louv_segment_oracle(c, cl, seg, nodes, edges, want_repro):
                 msgs.append("seeded louvain is not reproducible: %d distinct louvain_partitions results and %d "
                             "distinct louvain_communities results in %d calls (in process, pools 1/4/16)"
                             % (dp, dc, ncalls))
+    if want_repro:
+        r = [o for o in seg if o[0] == 83]
+        if r and r[0][1][0][0] != 1:
+            msgs.append("modularity of one partition differs by more than rounding between %d freshly built copies "
+                        "of the same graph" % r[0][1][0][2])
     if not codes:
         return msgs + ["no outcome observed"]
     if codes[0] == 101:
@@ -714,7 +719,9 @@ class C17Prop(CommProp):
             "on 3-12 nodes, undirected and directed (40%, random orientation plus reverse edges), unweighted / "
             "weight 1 / weights cycling over 0.1,0.2,0.3 by edge index, by endpoint sum or at random; each seeded "
             "louvain_partitions and louvain_communities call (seeds 0-20, resolution {1/2,1,3/2,None}, threshold "
-            "{0,1e-7,None}) repeated 20x in process and once under rayon pools of 1, 4 and 16 threads; every 4th case "
+            "{0,1e-7,None}) repeated 20x in process, each time on a freshly built copy of the input graph (freshly "
+            "keyed hash tables), and once under rayon pools of 1, 4 and 16 threads; modularity of the result on every "
+            "copy must agree up to rounding; every 4th case "
             "is fast_gnp_random_graph (n 1-40, p in {.05,.2,.5,.9}, directed and undirected, seeds 0-50) likewise; "
             "the whole run is executed in 3 fresh processes and the outputs compared (partitions as sets of sets, "
             "graphs as node list + sorted edge list).  non-trivial = a Louvain result with a community of >= 2 nodes "
